@@ -41,6 +41,39 @@ type TField struct {
 	Null  bool    `json:"null,omitempty"`  // template value is JSON null (scalar fields: the zero value)
 	Sub   *TMsg   `json:"sub,omitempty"`   // nested template (singular message field, template modes)
 	BitOr bool    `json:"bitor,omitempty"` // V is a mask or-ed into the field (singular integer fields)
+	// MaskK, when set, is the Go type of the mask (the type parameter of
+	// BitOr / BitOrRewriter) when it is not the Go type of the field: any
+	// integer type at least as wide as the field (a narrower mask type
+	// truncates the field by design and is not generated).
+	MaskK ps.Kind `json:"mask_k,omitempty"`
+}
+
+// maskKind is the mask type used for a BitOr field.
+func (tf *TField) maskKind(fk ps.Kind) ps.Kind {
+	if tf.MaskK != "" {
+		return tf.MaskK
+	}
+	return fk
+}
+
+// genMaskKind draws a mask type for a BitOr on a field of kind fk: the field's
+// own type half of the time, else any integer type of at least its width
+// (signedness may differ, e.g. uint32 on an int32 / sint32 field). In template
+// mode the mask travels as a JSON number, so another type is only used when
+// the mask value fits every candidate (<= MaxInt32).
+func genMaskKind(rt *rapid.T, fk ps.Kind, mask uint64, template bool) ps.Kind {
+	if rapid.Bool().Draw(rt, "ownmask") || template && mask > math.MaxInt32 {
+		return ""
+	}
+	cands := []ps.Kind{ps.KInt, ps.KInt64, ps.KUint, ps.KUint64}
+	if fk == ps.KInt32 || fk == ps.KUint32 {
+		cands = append(cands, ps.KInt32, ps.KUint32, ps.KInt32, ps.KUint32)
+	}
+	k := cands[rapid.IntRange(0, len(cands)-1).Draw(rt, "maskk")]
+	if k == fk {
+		return ""
+	}
+	return k
 }
 
 // TMsg is a template over a subset of the fields of one message.
@@ -222,7 +255,7 @@ func rulesOf(s *ps.Schema, m *ps.Message, t *TMsg) segproto.RewriterRules {
 		name := m.TypeOfName(tf.Idx)
 		switch {
 		case tf.BitOr:
-			switch f.K {
+			switch tf.maskKind(f.K) {
 			case ps.KInt:
 				r[name] = segproto.BitOr[int]{}
 			case ps.KInt32:
@@ -383,7 +416,7 @@ func handRewriter(b *ps.Built, t *TMsg) (segproto.Rewriter, error) {
 		viaValue := (tf.Idx+i)%2 == 1
 		switch {
 		case tf.BitOr:
-			rw, err := bitOrRW(typ.Field(tf.Idx).Type, f.Num, f.K, tf.V.N)
+			rw, err := bitOrRW(typ.Field(tf.Idx).Type, f.Num, tf.maskKind(f.K), tf.V.N)
 			if err != nil {
 				return nil, err
 			}
@@ -916,6 +949,7 @@ func fieldsetPanics(max int) bool { return max >= 256 && max%64 < 61 }
 type genStats struct {
 	nested, scalar, zero, null, rep, mp, bitor, bitorSint, wholeMsg int
 	avoidedFieldset, avoidedBitOrSint                               int
+	bitorOtherMask                                                  int
 	maxNum                                                          int
 }
 
@@ -987,7 +1021,11 @@ func genTemplate(rt *rapid.T, s *ps.Schema, mi int, rules bool, depth int, st *g
 				o := tmplVal
 				v := ps.GenFieldVal(rt, s, f, &o, depth)
 				tf.V, tf.BitOr = &v, true
+				tf.MaskK = genMaskKind(rt, f.K, v.N, true)
 				st.bitor++
+				if tf.MaskK != "" {
+					st.bitorOtherMask++
+				}
 				if f.Opt == "zigzag" {
 					st.bitorSint++
 				}
@@ -1094,7 +1132,11 @@ func genHand(rt *rapid.T, s *ps.Schema, st *genStats) TMsg {
 			}
 			v := ps.GenFieldVal(rt, s, f, &o, 0)
 			tf.V, tf.BitOr = &v, true
+			tf.MaskK = genMaskKind(rt, f.K, v.N, false)
 			st.bitor++
+			if tf.MaskK != "" {
+				st.bitorOtherMask++
+			}
 			if f.Opt == "zigzag" {
 				st.bitorSint++
 			}
@@ -1383,6 +1425,7 @@ func TestRewrite(t *testing.T) {
 			lab(gs.mp > 0, "tmpl.map")
 			lab(gs.bitor > 0, "tmpl.bitor")
 			lab(gs.bitorSint > 0, "tmpl.bitor-on-sint")
+			lab(gs.bitorOtherMask > 0, "tmpl.bitor-mask-type-differs")
 			lab(gs.wholeMsg > 0, "tmpl.whole-message(hand)")
 			evid.Label("tmpl.maxnum" + numLabel(gs.maxNum))
 			lab(touched > 0, "input.templated-field-present")
